@@ -715,7 +715,7 @@ pub fn gen_long_program(g: &mut Gen, prefix: &'static str, header: &str, nvars: 
 }
 
 /// A chain of `steps` one-entry operations and then an operation that uses the FIRST variable
-/// again: a parent more than `steps` entries back.  (Thorough tier; the Lean side answers it with
+/// again: a parent more than `steps` entries back.  (Both tiers, once; the Lean side answers it with
 /// the array-backed evaluation, header `@ tape fp big`.)
 pub fn gen_chain(g: &mut Gen, prefix: &str, header: &str, steps: usize) {
     g.count(&format!("{}.large.chain.{}", prefix, steps));
@@ -1446,6 +1446,12 @@ pub fn gen(g: &mut Gen) {
     }
     for _ in 0..n_rat {
         gen_program(g, Kind::Rat, "c04.rat", "@ tape rat", 10);
+    }
+    if !g.thorough {
+        // the quick tier too sees ONE tape of more than 65 535 entries whose last operations use
+        // the first variable (a parent more than 70 000 entries back); emitted last, so that every
+        // other quick case is the one it was
+        gen_chain(g, "c04.fp", "@ tape fp big", 70_100);
     }
 }
 
